@@ -490,10 +490,12 @@ class Buildable(Generic[T], metaclass=abc.ABCMeta):
     )
     var_positional_start = self.__signature_info__.var_positional_start
     index_range = slice_key.indices(len(all_positional_args))
-    if var_positional_start is None or index_range[0] < var_positional_start:
+    indices = range(*index_range)
+    # An empty slice inserts at its start position.
+    first_index = min(indices) if indices else index_range[0]
+    if var_positional_start is None or first_index < var_positional_start:
       # The slice key spans on non-variadic positional arguments, this set item
       # operation cannot modify the total length of full positiona args list.
-      indices = range(*index_range)
       if len(indices) != len(value):
         raise ValueError(
             'Cannot modify the total length of full positional arguments list'
@@ -511,24 +513,19 @@ class Buildable(Generic[T], metaclass=abc.ABCMeta):
       ]
       new_placeholders = old_placeholders.copy()
       new_placeholders[slice_key] = value
-      for index in range(var_positional_start, len(old_placeholders)):
-        if index < len(new_placeholders):
-          new_value = new_placeholders[index]
-          if isinstance(new_value, _Placeholder):
-            if new_value == old_placeholders[index]:
-              continue
-            else:
-              new_value = self.__arguments__[new_value.index]
-          self._arguments_set_value(index, new_value)
-        else:
-          self._arguments_del_value(index)
       len_old = len(old_placeholders)
       len_new = len(new_placeholders)
-      for index in range(len_old, len_new):
+      for index in range(var_positional_start, len_new):
         new_value = new_placeholders[index]
         if isinstance(new_value, _Placeholder):
-          new_value = self.__arguments__[new_value.index]
+          if new_value.index == index:
+            continue
+          # Read moved values from the snapshot taken above, not from
+          # `__arguments__`, whose slots may already have been overwritten.
+          new_value = all_positional_args[new_value.index]
         self._arguments_set_value(index, new_value)
+      for index in range(len_new, len_old):
+        self._arguments_del_value(index)
 
   def __setitem__(self, key: Any, value: Any):
     """Set positional arguments by index."""
